@@ -32,6 +32,7 @@ struct Script {
     int nslots = 0;
     std::vector<Step> steps;
     int valueKind = 0;               // 0 bool, 1 MT int, 2 MT real (exact lane), 3 EV+ int
+    uint64_t orderSeed = 0;          // != 0: every forest is given the same random variable order before the first step
     std::string str() const { return std::string(rel ? "rel" : "set") + " shape " + shape.str() + " " + tos(forests.size()) + " forests " + tos(steps.size()) + " steps"; }
 };
 
@@ -90,6 +91,7 @@ static inline Script genScript(Rng& r, const ScriptOpts& o) {
         }
     }
     S.nslots = r.range(4, 10);
+    if (S.shape.n() >= 2 && !(S.rel && S.valueKind == 3) && r.chance(1, 4)) S.orderSeed = r.next() | 1;   // (EV+ relations cannot be reordered)
     std::vector<Table> cur(static_cast<size_t>(S.nslots)); std::vector<int> curF(size_t(S.nslots), -1);   // -1 = dead
     auto liveSlots = [&](int wantBool /* -1 any, 0 value kind, 1 bool */) {
         std::vector<int> v;
@@ -249,6 +251,14 @@ static inline RunResult runScript(const Script& S, const Config& cfg, Ctx& c, co
     World w(S.shape);
     std::vector<FSpec> fs = S.forests; std::vector<forest*> F;
     for (size_t i = 0; i < fs.size(); i++) { applyPolicy(fs[i], cfg.st[i], cfg.mm[i], cfg.del[i]); F.push_back(makeForest(w.dom, fs[i])); }
+    if (S.orderSeed) {
+        Rng orr(S.orderSeed); int n = S.shape.n();
+        std::vector<int> l2v(size_t(n + 1), 0), perm; for (int i = 1; i <= n; i++) perm.push_back(i);
+        orr.shuffle(perm); for (int i = 1; i <= n; i++) l2v[size_t(i)] = perm[size_t(i - 1)];
+        phase("script:reorder-empty-forests");
+        for (forest* f : F) f->reorderVariables(l2v.data());
+        c.count("scripts_in_reordered_forests");
+    }
     std::vector<dd_edge> E(static_cast<size_t>(S.nslots)); std::vector<Table> T(static_cast<size_t>(S.nslots)); std::vector<int> EF(size_t(S.nslots), -1);
     const bool real = S.valueKind == 2;
     const Tol tol = real ? Tol{1e-9, 1e-9} : EXACT;
